@@ -1,0 +1,47 @@
+//go:build verif
+
+package cache
+
+import (
+	"io"
+	"sync/atomic"
+)
+
+// Verification hooks (build tag verif). verifStep is called immediately before every
+// file-system operation of the disk cache. An installed gate may block (schedule control),
+// count, or kill the process (crash points); it must not touch the cache directory.
+
+type verifGateFunc func(name, path string)
+
+var verifGate atomic.Pointer[verifGateFunc]
+
+// VerifSetGate installs (or, with nil, removes) the gate called before each FS operation.
+func VerifSetGate(f func(name, path string)) {
+	if f == nil {
+		verifGate.Store(nil)
+		return
+	}
+	g := verifGateFunc(f)
+	verifGate.Store(&g)
+}
+
+func verifStep(name, path string) {
+	if g := verifGate.Load(); g != nil {
+		(*g)(name, path)
+	}
+}
+
+type verifGatedWriter struct {
+	w          io.Writer
+	name, path string
+}
+
+func (g verifGatedWriter) Write(p []byte) (int, error) {
+	verifStep(g.name, g.path)
+	return g.w.Write(p)
+}
+
+// verifWriter wraps w so that every Write is preceded by verifStep(name, path).
+func verifWriter(name, path string, w io.Writer) io.Writer {
+	return verifGatedWriter{w, name, path}
+}
